@@ -178,3 +178,14 @@ mod tests {
         }
     }
 }
+
+#[cfg(feature = "verif")]
+impl<DataType:        Debug + Send + Sync,
+     ContainerType:   MoveContainer<u32> + crate::verif::VerifState,
+     const POOL_SIZE: usize>
+crate::verif::VerifState for
+OgreArrayPoolAllocator<DataType, ContainerType, POOL_SIZE> {
+    fn verif_state(&self, out: &mut Vec<u64>) {
+        self.free_list.verif_state(out);
+    }
+}
